@@ -23,6 +23,10 @@ CHECKS = {
 }
 
 PENDING = {}
+CHECKS["C03"] = ("stream", "fault_enumeration",
+   "The stream-seam part of the property: streams of back-to-back generated transactions (every branch / version), block headers and whole blocks are delivered through a simulator-owned Read/Write transport that injects short reads and writes, EINTR, truncation/EOF, hard errors, zero-length writes, single-bit flips, non-canonical and hostile count fields and out-of-range amounts at seeded positions; oracles: exact consumption at every record boundary, identical txid / auth commitment / field-by-field rendering / re-serialisation, v1-v4 and header ids equal sha256d of the consumed bytes, straddling record rejected, errors propagated with only a prefix written, no panic, no count-driven allocation, accepted mutants are re-serialisation fixpoints. zcash_encoding 0.5 primitives are driven the same way against a reference encoding. Fault positions are sampled per record, not enumerated exhaustively.",
+   "4.3", "Traffic is what the repository's arb_tx generators produce (normalised by one round trip only where the generator emits values no wire transaction can carry); Sprout JoinSplit bodies are not generated; published zcash_encoding 0.4 (registry) is exercised only through the transaction codecs.",
+   "deterministic simulation: faulty Read/Write transport over generated record streams, seeded fault positions")
 
 def main():
     checks = []
@@ -65,7 +69,6 @@ HOOK_COMMITS = ["abbf854"]
 PENDING.update({
  "C01": "check not built yet at this commit (planned: wallet-sim ledger, DESIGN.md section 4.1)",
  "C02": "check not built yet at this commit (planned: wallet-sim atomic, DESIGN.md section 4.2)",
- "C03": "check not built yet at this commit (planned: codec-sim stream, DESIGN.md section 4.3)",
  "C05": "check not built yet at this commit (planned: scan-sim batch, DESIGN.md section 4.4)",
  "C06": "check not built yet at this commit (planned: wallet-sim trees, DESIGN.md section 4.5)",
  "C08": "check not built yet at this commit (planned: wallet-sim spend, DESIGN.md section 4.6)",
